@@ -31,7 +31,7 @@ try:
 except Exception:
     pass
 conf = {}
-for name in ("confirm.log", "confirm2.log", "confirm4.log", "confirm5.log"):     # later logs (manual re-runs) override
+for name in ("confirm.log", "confirm2.log", "confirm4.log", "confirm5.log", "confirm6.log"):     # later logs (manual re-runs) override
     log = os.path.join(ROOT, "harness/target/scratch", name)
     if os.path.exists(log):
         for ln in open(log):
